@@ -176,8 +176,11 @@ pub fn record(output: &str) {
             (s, g)
         };
         made += 1;
-        let step_deg = [3.0, 6.0, 12.0, 0.5][made % 4];
-        let planner = RRTPlanner { step_size_joint_space: (step_deg as f64).to_radians(), max_try: [2000, 300, 40][made % 3], debug: false };
+        // (start/goal next to the limits: steps of 3 or 6 degrees - the margins are a small fraction of either - and the
+        //  full try budget)
+        let near_limits_case = !asym && !plate_case && !selfc && tries % 12 == 3;
+        let step_deg = if near_limits_case { [3.0, 6.0][made % 2] } else { [3.0, 6.0, 12.0, 0.5][made % 4] };
+        let planner = RRTPlanner { step_size_joint_space: (step_deg as f64).to_radians(), max_try: if near_limits_case { 2000 } else { [2000, 300, 40][made % 3] }, debug: false };
         let shared = Arc::new(AtomicBool::new(true));     // one flag raised once by the caller, guarding several calls
         let near_limits = !asym && !plate_case && !selfc && tries % 12 == 3;
         let modes: Vec<&str> = if near_limits { vec!["plain", "plain", "plain", "plain", "plain", "plain", "plain", "stop-before", "stop-during"] }
